@@ -34,6 +34,9 @@ type Ctx struct {
 	sibRep    *sibling.SSAReport
 	sibErr    error
 	sibDone   bool
+	roleMap   map[string]*ssa.Function
+	canonMap  map[*ssa.Function]string
+	fldMap    map[string]string
 }
 
 func NewCtx(w *core.World, tier string) *Ctx {
@@ -55,6 +58,11 @@ func (x *Ctx) Machines() []*machine.Machine {
 
 func (x *Ctx) Machine(name string) *machine.Machine {
 	x.Machines()
+	if fn := x.roles()[name]; fn != nil {
+		if m := x.machines[fn.Name()]; m != nil {
+			return m
+		}
+	}
 	return x.machines[name]
 }
 
@@ -69,12 +77,12 @@ func (x *Ctx) Engine() *scan.Engine {
 		e.Trace = os.Getenv("VERIF_TRACE") != ""
 		e.LoadTables()
 		for _, n := range scannerNames {
-			if fn := x.W.SRoot.Func(n); fn != nil {
+			if fn := x.Func(n); fn != nil {
 				e.Inline[fn] = true
 			}
 		}
 		for _, n := range fpScannerNames {
-			if fn := x.W.SFP.Func(n); fn != nil {
+			if fn := x.Func("fp." + n); fn != nil {
 				e.Inline[fn] = true
 			}
 		}
@@ -142,6 +150,9 @@ func (x *Ctx) Scan(name string, mk func(fn *ssa.Function) *scan.Spec) *scan.Resu
 
 // Func finds a function by "name" (root package), "fp.name" or "T.method".
 func (x *Ctx) Func(name string) *ssa.Function {
+	if fn := x.roles()[name]; fn != nil {
+		return fn
+	}
 	if len(name) > 3 && name[:3] == "fp." {
 		return x.W.SSAFunc(x.W.SFP, name[3:])
 	}
@@ -313,7 +324,7 @@ func (x *Ctx) bisim(r *core.Result, rs *core.RuleStat, what string, impl, ref *l
 // Sibling: the co-execution comparison of internal/fp with strconv (once per run).
 func (x *Ctx) Sibling() (*sibling.SSAReport, error) {
 	if !x.sibDone {
-		x.sibRep, x.sibErr = sibling.CompareSSA(x.W)
+		x.sibRep, x.sibErr = sibling.CompareSSA(x.W, func(name string) *ssa.Function { return x.roles()["fp."+name] })
 		x.sibDone = true
 	}
 	return x.sibRep, x.sibErr
